@@ -5,6 +5,7 @@ import (
 	"go/constant"
 	"go/token"
 	"go/types"
+	"sort"
 	"strings"
 
 	"golang.org/x/tools/go/ssa"
@@ -185,7 +186,11 @@ func c07R1R2(c *Ctx, p *Prog) {
 				}
 			}
 			via := c07BypassPath(p, fn, mk.(ssa.Instruction), in.(ssa.Instruction), alphaV, val)
-			c.Check(via == "", r2, "alphaBeta#insert-child-searched", in.Pos(), "a path from MakeMove to the splice runs no child search for the move and is not closed by a `value <= alpha` exit (%s): the row of ply+1 then still holds a sibling's line, which is spliced behind this move", via)
+			if strings.Contains(via, "?flag ") {
+				c.Undec(r2, "alphaBeta#insert-child-searched", in.Pos(), "a path from MakeMove to the splice without a child search could not be excluded: it branches on a boolean flag whose value on that path is not a constant (%s)", via)
+			} else {
+				c.Check(via == "", r2, "alphaBeta#insert-child-searched", in.Pos(), "a path from MakeMove to the splice runs no child search for the move and is not closed by a `value <= alpha` exit (%s): the row of ply+1 then still holds a sibling's line, which is spliced behind this move", via)
+			}
 		}
 		c.Check(gtAlpha && ltBeta, r2, "alphaBeta#insert-window", in.Pos(), "the splice happens only when the child's value raised alpha and stayed below beta (value > alpha: %v, value < beta: %v)", gtAlpha, ltBeta)
 	}
@@ -230,15 +235,67 @@ func c07BypassPath(p *Prog, fn *ssa.Function, from, to ssa.Instruction, alpha, v
 		}
 		return false
 	}
-	type st struct{ b, pred int }
+	type st struct {
+		b, pred int
+		env     string
+	}
 	seen := map[st]bool{}
+	flags := map[*ssa.Phi]bool{} // boolean phis whose value on the current path is a known constant
+	envKey := func() string {
+		var ks []string
+		for ph, v := range flags {
+			ks = append(ks, fmt.Sprintf("%s=%v", ph.Name(), v))
+		}
+		sort.Strings(ks)
+		return strings.Join(ks, ",")
+	}
+	memo := map[st]string{}
+	pess := true // pessimistic pass: a branch on an unresolved flag must be bypassable on both sides
 	var walk func(b *ssa.BasicBlock, start, pred int, trail []string) string
-	walk = func(b *ssa.BasicBlock, start, pred int, trail []string) string {
+	walk = func(b *ssa.BasicBlock, start, pred int, trail []string) (res string) {
 		if start == 0 {
-			if seen[st{b.Index, pred}] {
+			// entering b over the edge from its pred-th predecessor fixes its boolean phis
+			type sv struct {
+				ph     *ssa.Phi
+				v, had bool
+			}
+			var saved []sv
+			for _, x := range b.Instrs {
+				ph, isPhi := x.(*ssa.Phi)
+				if !isPhi {
+					break
+				}
+				old, had := flags[ph]
+				saved = append(saved, sv{ph, old, had})
+				delete(flags, ph)
+				if pred >= 0 && pred < len(ph.Edges) {
+					if k, isK := ph.Edges[pred].(*ssa.Const); isK && k.Value != nil && k.Value.Kind() == constant.Bool {
+						flags[ph] = constant.BoolVal(k.Value)
+					} else if q, isQ := ph.Edges[pred].(*ssa.Phi); isQ {
+						if v, known := flags[q]; known {
+							flags[ph] = v
+						}
+					}
+				}
+			}
+			defer func() {
+				for _, e := range saved {
+					if e.had {
+						flags[e.ph] = e.v
+					} else {
+						delete(flags, e.ph)
+					}
+				}
+			}()
+			key := st{b.Index, pred, envKey()}
+			if r, done := memo[key]; done {
+				return r
+			}
+			if seen[key] {
 				return ""
 			}
-			seen[st{b.Index, pred}] = true
+			seen[key] = true
+			defer func() { memo[key] = res }()
 		}
 		for _, x := range b.Instrs[start:] {
 			if x == to {
@@ -269,10 +326,19 @@ func c07BypassPath(p *Prog, fn *ssa.Function, from, to ssa.Instruction, alpha, v
 					skip[b2i(pos)] = true
 				}
 			}
-			if ph, ok := cond.(*ssa.Phi); ok && ph.Block() == b && pred >= 0 && pred < len(ph.Edges) {
-				if k, isK := ph.Edges[pred].(*ssa.Const); isK && k.Value != nil && k.Value.Kind() == constant.Bool {
-					v := constant.BoolVal(k.Value) == pos // truth of the branch condition
-					skip[b2i(v)] = true                   // the other successor is infeasible from this edge
+			if ph, ok := cond.(*ssa.Phi); ok {
+				if fv, known := flags[ph]; known {
+					v := fv == pos      // truth of the branch condition
+					skip[b2i(v)] = true // the other successor is infeasible on this path
+				} else if pess {
+					r0 := walk(succs[0], 0, predIndex(succs[0], b), trail)
+					r1 := walk(succs[1], 0, predIndex(succs[1], b), trail)
+					if r0 != "" && r1 != "" {
+						return r0
+					}
+					return ""
+				} else {
+					trail = append(trail[:len(trail):len(trail)], "?flag "+ph.Comment)
 				}
 			}
 			for i, s := range succs {
@@ -295,7 +361,11 @@ func c07BypassPath(p *Prog, fn *ssa.Function, from, to ssa.Instruction, alpha, v
 	b := from.Block()
 	for i, x := range b.Instrs {
 		if x == from {
-			return walk(b, i+1, -1, []string{p.Rel(from.Pos())})
+			if r := walk(b, i+1, -1, []string{p.Rel(from.Pos())}); r != "" {
+				return r // a bypass whatever the unresolved flags are
+			}
+			pess, seen, memo = false, map[st]bool{}, map[st]string{}
+			return walk(b, i+1, -1, []string{p.Rel(from.Pos())}) // a bypass for some value of them: carries "?flag"
 		}
 	}
 	return ""
